@@ -7,6 +7,12 @@
 //! The number of bytes each `read_once` took from the socket is OBSERVED (FIONREAD before/after) and is the
 //! kernel's answer handed to the model; the engine counts (`kernel_short_read`) every read that returned
 //! less than min(requested, queued).
+//!
+//! `read_once` is also called on buffers that already hold a complete message, with the next message (and
+//! its descriptors) already queued in the socket: such a call must return Ok, take nothing from the socket and
+//! change nothing (it used to do a zero-length recvmsg: ConnectionClosed + the next message's descriptors
+//! lost; repaired by the early return in `refill_buffer`). Checked directly on the implementation; likewise
+//! that no call ever reports ConnectionClosed (the peer never hangs up in this engine).
 use rustbus::connection::ll_conn::DuplexConn;
 use rustbus::connection::{Error, Timeout};
 use rustbus::message_builder::{MarshalledMessage, MessageBuilder};
@@ -174,12 +180,14 @@ enum Policy {
     GetEach,
     /// the documented loop: guarded read_once, get_next_message when the buffer is complete
     ReadLoop,
-    /// 0..3 random calls (get / guarded read_once / read_once on an incomplete buffer) after every chunk
+    /// 0..3 random calls (get / guarded read_once / read_once, also on a complete buffer) after every chunk
     Mixed,
     /// like Mixed, only read_once / guarded read_once until the end of the stream
     ReadOnly,
-    /// read_once even when the buffer already holds a complete message (zero length recvmsg)
-    ZeroRead,
+    /// read_once until the buffer holds a complete message, then read_once twice more (must be no-ops), then
+    /// get_next_message; mode 0: only after the last chunk (everything queued), 1: after every chunk,
+    /// 2: after every second chunk (the peer is one chunk ahead)
+    FullRead(u8),
 }
 
 struct Received {
@@ -309,6 +317,36 @@ impl<'a> Runner<'a> {
         if res == "to" && inq0 > 0 && kind == 'g' && consumed == 0 {
             s.problems.push("get_next_message timed out although bytes were queued".to_string());
         }
+        if kind == 'r' && whole0 == Some(true) {
+            // read_once on a buffer that already holds a complete message: Ok, nothing read, nothing changed
+            self.out.hit("complete_read_once");
+            if inq0 > 0 {
+                self.out.hit("complete_read_once_next_queued");
+                if s.frames.get(s.received.len() + 1).map_or(false, |f| !f.fds.is_empty()) {
+                    self.out.hit("complete_read_once_next_queued_with_fds");
+                }
+            }
+            if res != "ok" {
+                s.problems.push(format!(
+                    "read_once on a complete buffer returned '{}' instead of Ok ({} bytes of the next message queued)",
+                    res, inq0
+                ));
+            }
+            if consumed != 0 {
+                s.problems.push(format!(
+                    "read_once on a complete buffer took {} bytes of the next message from the socket",
+                    consumed
+                ));
+            }
+            let n_now = link.conn.recv.bytes_needed_for_current_message().ok();
+            let w_now = link.conn.recv.buffer_contains_whole_message().ok();
+            if n_now != needed0 || w_now != whole0 {
+                s.problems.push(format!(
+                    "read_once on a complete buffer changed the connection: needed {:?}->{:?}, whole {:?}->{:?}",
+                    needed0, n_now, whole0, w_now
+                ));
+            }
+        }
         if needed0.is_none() && consumed != 0 {
             // the announcement was already refused before the call: nothing may be read
             s.problems.push(format!("call on a refused announcement ({}) took {} bytes from the socket", res, consumed));
@@ -423,8 +461,6 @@ impl<'a> Runner<'a> {
                         } else {
                             'r'
                         };
-                        // read_once on a complete buffer is the ZeroRead family's business
-                        let kind = if kind == 'r' && self.whole() { 'm' } else { kind };
                         self.op(&mut s, kind);
                         if s.dirty {
                             break;
@@ -434,16 +470,29 @@ impl<'a> Runner<'a> {
                         self.drain(&mut s);
                     }
                 }
-                Policy::ZeroRead => {
-                    if last {
-                        // read_once until the first message is complete, then once more
-                        for _ in 0..8 {
+                Policy::FullRead(mode) => {
+                    let now = match mode {
+                        0 => last,
+                        1 => true,
+                        _ => last || ci % 2 == 1,
+                    };
+                    if now {
+                        for _ in 0..20000 {
                             if self.whole() {
+                                // the buffer is complete: two more read_once (no-ops), then take the message
+                                self.op(&mut s, 'r');
+                                self.op(&mut s, 'r');
+                                let g = self.op(&mut s, 'g');
+                                if !g.starts_with("msg:") {
+                                    break;
+                                }
+                            } else if self.op(&mut s, 'r') != "ok" {
                                 break;
                             }
-                            self.op(&mut s, 'r');
+                            if s.dirty {
+                                break;
+                            }
                         }
-                        self.op(&mut s, 'r');
                     }
                 }
             }
@@ -451,7 +500,7 @@ impl<'a> Runner<'a> {
                 break;
             }
         }
-        if !s.dirty || policy == Policy::ZeroRead {
+        if !s.dirty {
             self.drain(&mut s);
         }
         if !s.dirty {
@@ -494,7 +543,7 @@ impl<'a> Runner<'a> {
             if complete && !s.dirty && s.received.len() != frames.len() {
                 s.problems.push(format!("{} messages sent completely, {} returned", frames.len(), s.received.len()));
             }
-            if s.dirty && policy != Policy::ZeroRead {
+            if s.dirty {
                 s.problems.push("a call failed on a stream of valid messages".to_string());
             }
         }
@@ -765,20 +814,56 @@ pub fn run(cfg: &Cfg) {
                 rn.scenario(&mut rng, &frames, &ch, pol, false, name);
             }
         }
-        // read_once on a buffer that already holds a complete message: zero length recvmsg
-        for variant in 0..4 {
-            serial += 1;
-            let a = gen_frame(&mut rng, &pool, 0, serial, 3, &[]);
-            serial += 1;
-            let bfds: Vec<usize> = match variant {
-                0 | 3 => vec![],
-                1 => vec![4],
-                _ => vec![2, 7, 7],
+        // read_once on a buffer that already holds a complete message while the next message - with or without
+        // descriptors - is already queued (formerly: zero length recvmsg)
+        let nfull = if cfg.thorough { 24 } else { 8 };
+        for variant in 0..nfull {
+            // descriptors of the 1-3 messages of the stream
+            let pat: Vec<Vec<usize>> = match variant % 8 {
+                0 => vec![vec![], vec![]],
+                1 => vec![vec![], vec![4]],
+                2 => vec![vec![], vec![2, 7, 7]],
+                3 => vec![vec![]],
+                4 => vec![vec![5], vec![1, 3], vec![]],
+                5 => vec![vec![], vec![], vec![9, 0]],
+                6 => vec![vec![6, 6], vec![8], vec![11, 10, 2]],
+                _ => vec![vec![3]],
             };
-            let b = gen_frame(&mut rng, &pool, 1, serial, 9, &bfds);
-            let frames = if variant == 3 { vec![a] } else { vec![a, b] };
-            let ch = chunks_from(&BTreeSet::new(), &frames);
-            rn.scenario(&mut rng, &frames, &ch, Policy::ZeroRead, true, "zero_length_recvmsg");
+            let frames: Vec<Frame> = pat
+                .iter()
+                .enumerate()
+                .map(|(i, fds)| {
+                    serial += 1 + rng.below(3) as u32;
+                    let body_len = if variant < 8 { 3 + 6 * i } else { rng.range(0, 60) as usize };
+                    gen_frame(&mut rng, &pool, i, serial, body_len, fds)
+                })
+                .collect();
+            let total: usize = frames.iter().map(|f| f.bytes.len()).sum();
+            let first = frames[0].bytes.len();
+            let mut splits: Vec<BTreeSet<usize>> = vec![
+                BTreeSet::new(),                          // one write (plus the forced splits)
+                BTreeSet::from([rng.range(1, 15) as usize]), // inside the fixed header
+                BTreeSet::from([first - 1]),              // one byte before the end of the first message
+                BTreeSet::from([first]),                  // exactly at the boundary
+                BTreeSet::from([first + 1]),              // the first byte of the next message rides along
+                BTreeSet::from([rng.range(1, total as u64 - 1) as usize, rng.range(1, total as u64 - 1) as usize]),
+                (1..total).collect(),                     // one byte at a time
+            ];
+            if cfg.thorough {
+                for _ in 0..6 {
+                    let mut sp = BTreeSet::new();
+                    for _ in 0..rng.range(1, 8) {
+                        sp.insert(rng.range(1, total as u64 - 1) as usize);
+                    }
+                    splits.push(sp);
+                }
+            }
+            for sp in &splits {
+                for mode in 0..3u8 {
+                    let ch = chunks_from(sp, &frames);
+                    rn.scenario(&mut rng, &frames, &ch, Policy::FullRead(mode), true, "read_once_on_complete_buffer");
+                }
+            }
         }
     }
     drop(pool);
@@ -787,8 +872,10 @@ pub fn run(cfg: &Cfg) {
          written by a scripted peer in chunks: every single split point x 4 call policies, pairs of split points (exhaustive for one \
          stream in the thorough tier, sampled otherwise), one byte at a time, random compositions, one write; after each chunk \
          non-blocking get_next_message / read_once / guarded read_once calls incl. calls that find nothing; corrupted fixed headers, \
-         oversized announcements, undecodable complete frames; read_once on a complete buffer. A case is one (stream, chunking, call \
-         script); non-trivial = at least two chunks",
+         oversized announcements, undecodable complete frames; read_once on a buffer that already holds a complete message \
+         (in the random policies and in a dedicated family: 1-3 messages with 0-3 descriptors each x 7+ chunkings x 3 schedules, the \
+         next message and its descriptors already queued). A case is one (stream, chunking, call script); non-trivial = at least \
+         two chunks",
         false,
     );
     let _ = exhaustive_pairs;
